@@ -396,6 +396,14 @@ func init() {
 			}
 			cfgs := c14Cfgs(tier)
 			tasks := seqTasks("C14", []seqLevel{{Name: fmt.Sprintf("lockstep-d%db%d-x%dcfgs", d, b, len(cfgs)), Cfgs: []Cfg{defaultCfg}, Keys: keysAB, Alpha: c14Alphabet, Depth: d, Dev: b, Split: 2, Run: makeRunC14(cfgs)}})
+			var lk []Cfg
+			for _, c := range longKeyCfgs() {
+				lk = append(lk, c)
+			}
+			mmlk := lk[0]
+			mmlk.IO = 1
+			lk = append(lk, mmlk)
+			tasks = append(tasks, seqTasks("C14", []seqLevel{{Name: "long-keys-lockstep-d4", Cfgs: []Cfg{lk[0]}, Keys: c18LongKeys, Alpha: longKeyMergeAlphabet, Depth: 4, Dev: 2, Split: 2, Run: makeRunC14(lk)}})...)
 			return append(tasks, c14IterTasks(tier)...)
 		},
 		Bounds: func(tier string) map[string]any {
